@@ -240,12 +240,19 @@ Qed.
    expression lexer at EVERY gap.  PROVED: the keyword-only statements and the bare `return` with any indentation and trailing whitespace
    (C10_ws_keyword_lines, C10_ws_else_gap, C10_ws_return_bare); a leading whitespace run in front of an expression, no fuel premise
    (C10_ws_expression_leading_partial / _err / _ok, C10_expression_fuel_suffices); indentation of EVERY statement kind
-   (C10_ws_indentation; C10_ws_indentation_partial is the earlier version without function-begin / jump / jumpif / return).
-   NOT proved (oracle only): trailing whitespace and inner gaps of the statements that carry an expression or a name
-   (assignment, function, if/elif/while/for, label, jump/jumpif, return, include) — with a trailing run the greedy `.+` of an
-   expression group captures the run too, so this needs whitespace-insensitivity of the expression lexer at the END of the
-   text plus a per-regex uniqueness argument; whitespace between the tokens of an expression.  These are checked
-   metamorphically by the direct oracle (harness/c10_oracle.py) at every inter-token gap.
+   (C10_ws_indentation; C10_ws_indentation_partial is the earlier version without function-begin / jump / jumpif / return);
+   round 5: white space BETWEEN the tokens of an expression — all token kinds, string / bracket atoms opaque, result EOk only
+   (C10_ws_expression_tokens_partial, _iff_partial, C10_ws_spaced_symmetric); TRAILING white space of an expression, every
+   text, equality of results (C10_ws_expression_trailing, C10_ws_token_regex_trailing).
+   NOT proved (oracle only): trailing whitespace and inner gaps of the STATEMENT lines that carry an expression or a name
+   (assignment, function, if/elif/while/for, label, jump/jumpif, return expr, include).  What is missing there is the
+   statement-regex layer only (the expression inside is covered by the two round-5 theorems): (1) the regexes that end with
+   `X \s*$` after a literal X (`:` `'` `>` `)` or a keyword) need the engine lemma m_trail generalised from "equal answers" to
+   "same captures, end moved by |ws|" for the `\s*$` tail; (2) `(?P<expr>.+)$` (assignment) and `\S.*` (return) absorb the
+   run, so the engine does NOT run in lockstep there (more star iterations on the longer subject), and `x =` / `x =  ` shows
+   that "assignment does not match" is not even preserved for a rejected line — the classify theorem has to go through the
+   kinds; (3) a run containing LF must be excluded (`.` does not read it).  These stay checked metamorphically by the direct
+   oracle (harness/c10_oracle.py) at every inter-token gap of every statement kind.
    C10_stateless: parse_script / parse_expression of the model are Gallina functions, so determinism and absence
    of state between calls are definitional; on the implementation they are tested by interleaved repeated calls. *)
 
